@@ -34,6 +34,11 @@ CLAIMS = {
   text="Proved in Lean: mse is the mean of squared differences; mse(a y+c, a yh+c) = a^2 mse, the non-negative root scales by |a| and its square is mse; mean/variance respond affinely/quadratically; R^2 = 1 for perfect predictions, 0 for the mean predictor, invariant under y -> a y + c (a != 0); a dimension-wise metric's entry j is the metric of column j over all rows; different shapes are rejected; for an upper-triangular matrix the characteristic polynomial is prod (X - d_i) so the eigenvalues are the diagonal, conjugation by an invertible (permutation) matrix keeps the characteristic polynomial, the effective matrix is lr W + (1-lr) I (triangular with diagonal lr d_i + 1 - lr), and rhoDiag returns the attained maximum modulus. Tied to the code by exact-rational evaluation of every metric (global and per dimension, all normalisations, fresh inputs and in sequence on the same objects, input purity) and by spectral_radius / effective_spectral_radius on permutation-conjugated rational triangular matrices in dense / csr / csc storage.",
   note="Trusted: Lean kernel + standard axioms; lean/RpyModel/Metrics.lean; the harness. NOT verified: numpy.linalg.eig and ARPACK eigs on general matrices (only compared on the family whose spectrum is proved, 1e-6); np.quantile (q1q3) is checked by the harness oracle only; complex eigenvalues are not in the proved family yet.",
   design="§6 C19"),
+ "C03": dict(
+  technique="Lean 4 proof (invariant of the Kahn loop, soundness and completeness by induction with a fuel bound; list-membership algebra for link/merge) + exhaustive and random differential correspondence of graph construction",
+  text="Proved in Lean for every duplicate-free graph whose edges join listed nodes: the model of topological_sort returns, when it accepts, an order containing every node exactly once with every edge going forward (C03_kahn_sound); it accepts every graph admitting a ranking (C03_kahn_complete; fuel |N|+1 suffices), so accepted <=> acyclic and any graph with a directed cycle - including cycles unreachable from any entry and graphs with no entry - is rejected (C03_accept_iff_ranked, C03_cycle_rejected); entries/exits are exactly the nodes without predecessor/successor; link(A,B) has exactly the nodes of both, all pre-existing edges and outputs(A) x inputs(B), many-to-many = union over pairs; merge is the union (commutative, idempotent, associative as sets); one step of Concat insertion adds one fresh Concat with each (distinct) parent once. Tied to the code by enumerating EVERY labelled digraph with self-loops on <=3 (quick) / <=4 (thorough) nodes through Model(nodes, edges), random digraphs on 5-8 nodes, random expressions and straight-line programs with shared intermediate models over >>, &, &=, link; the implementation's graph is canonicalised by the model's own canon and its order checked by validOrder; a structural oracle (each node once, order topological, entries/exits, no predecessor delivered twice) decides failing inputs.",
+  note="Trusted: Lean kernel + standard axioms; lean/RpyModel/Graph.lean; the harness. Carried by correspondence only: equality up to Concat names for chained/nested expressions (associativity of >> and &). Finding K12 (stacked Concats deliver a predecessor twice) is mirrored by the model and reported as KNOWN-FINDING.",
+  design="§6 C03"),
 }
 
 NOT_YET = "check not built yet in this revision (planned, see DESIGN.md §11)"
